@@ -393,7 +393,7 @@ func (p *path) addRule(
 	switch rule.ResponseBody {
 	case "":
 	default:
-		m.resp = fieldPath(fieldDescs, strings.Split(rule.Body, ".")...)
+		m.resp = fieldPath(desc.Output().Fields(), strings.Split(rule.ResponseBody, ".")...)
 		if m.resp == nil || !isSingularMessage(m.resp[len(m.resp)-1]) {
 			return fmt.Errorf("response body field error %v", rule.ResponseBody)
 		}
